@@ -12,11 +12,10 @@ theorem nodupB_iff : ∀ (l : List Name), nodupB l = true ↔ l.Nodup := by
   | nil => simp [nodupB]
   | cons a as ih => simp [nodupB, ih]
 
-/-- the hypotheses without "variables are plain" -/
+/-- the hypotheses of the equivalence (variables and parameters may be defined by initial assignments) -/
 structure OkV (c : Content) : Prop where
   surs : c.surs = []
   data : c.data = []
-  iaP : noIAB c.pars = true
   num : numCoefs c = true
   nd : ("time" :: (omKeys c.vars ++ omKeys c.pars ++ omKeys c.derived ++ omKeys c.rxns
           ++ (omKeys c.vars).map dName)).Nodup
@@ -27,8 +26,8 @@ structure OkV (c : Content) : Prop where
 
 theorem OkV.of_okC {c : Content} (h : okC c = true) : OkV c := by
   simp only [okC, Bool.and_eq_true, wellNamed] at h
-  obtain ⟨⟨⟨⟨⟨⟨⟨h1, h2⟩, h4⟩, h5⟩, h6, h7⟩, h8⟩, h9⟩, h10⟩ := h
-  refine ⟨by simpa using h1, by simpa using h2, h4, h5, (nodupB_iff _).mp h6, ?_, h8, h9, ?_⟩
+  obtain ⟨⟨⟨⟨⟨⟨h1, h2⟩, h5⟩, h6, h7⟩, h8⟩, h9⟩, h10⟩ := h
+  refine ⟨by simpa using h1, by simpa using h2, h5, (nodupB_iff _).mp h6, ?_, h8, h9, ?_⟩
   · intro kv hkv
     exact (nodupB_iff _).mp (List.all_eq_true.mp h7 kv hkv)
   · intro hv; simp [hv] at h10
